@@ -261,11 +261,23 @@ func CheckC13(e *Env) (int, error) {
 		for len(ops) < n {
 			ops = append(ops, pick())
 		}
-		if r.Intn(4) == 0 { // a call and its one-argument variation, alternating (memoisation keyed by part of the arguments)
+		if r.Intn(3) == 0 { // a call and its one-argument variation, alternating (memoisation keyed by part of the arguments)
 			kind = "variation"
 			op := pick()
 			v := op
 			switch {
+			case op.K == "seed" && r.Intn(3) == 0 && len(op.Passphrase())+len(op.Mnemonic()) > 0:
+				// the same concatenation split elsewhere: (M, P) vs (M+P[:k], P[k:]) or (M[:n-k], M[n-k:]+P)
+				m, pp := op.Mnemonic(), op.Passphrase()
+				if len(pp) > 0 && (r.Bool() || len(m) == 0) {
+					k := r.Range(1, len(pp))
+					setM(&v, m+pp[:k])
+					setP(&v, pp[k:])
+				} else {
+					k := r.Range(1, len(m))
+					setM(&v, m[:len(m)-k])
+					setP(&v, m[len(m)-k:]+pp)
+				}
 			case op.K == "seed" && r.Bool():
 				setP(&v, op.Passphrase()+"x")
 			case op.K == "seed":
@@ -411,26 +423,26 @@ func CheckC13(e *Env) (int, error) {
 		}
 	}
 	cov := map[string]interface{}{
-		"evaluations":         len(plans),
-		"distinct_nontrivial": len(distinct),
-		"rule":                "a case = one history (1-40 exported calls) executed by a single goroutine in a fresh process, every outcome compared with the outcome of the same call alone in a fresh process of the same build; caller-owned buffers (entropy incl. spare capacity) and returned seeds/strings re-inspected after every later call. Enumerated: all 12x12 ordered pairs of first-used Language values x 3 first-op kinds x 3 second-op kinds; every supported language's valid phrase asked under each of the 11 other Language values before and after its acceptance. Non-trivial: >= 2 calls on a common Language value; distinct by digest of the call sequence.",
-		"exhaustive":          false,
-		"exhaustive_parts":    "ordered pairs of first-used languages (10 supported + 2 unsupported) x {validate valid, validate invalid, generate}^2",
-		"samples":             samples,
-		"runs":                len(plans),
-		"distinct_histories":  len(distinct),
-		"history_kinds":       byKind,
-		"sim_steps_total":     totalOps,
-		"sim_time_note":       "no clock in the system; simulated time is counted in history operations",
+		"evaluations":           len(plans),
+		"distinct_nontrivial":   len(distinct),
+		"rule":                  "a case = one history (1-40 exported calls) executed by a single goroutine in a fresh process, every outcome compared with the outcome of the same call alone in a fresh process of the same build; caller-owned buffers (entropy incl. spare capacity) and returned seeds/strings re-inspected after every later call. Enumerated: all 12x12 ordered pairs of first-used Language values x 3 first-op kinds x 3 second-op kinds; every supported language's valid phrase asked under each of the 11 other Language values before and after its acceptance. Non-trivial: >= 2 calls on a common Language value; distinct by digest of the call sequence.",
+		"exhaustive":            false,
+		"exhaustive_parts":      "ordered pairs of first-used languages (10 supported + 2 unsupported) x {validate valid, validate invalid, generate}^2",
+		"samples":               samples,
+		"runs":                  len(plans),
+		"distinct_histories":    len(distinct),
+		"history_kinds":         byKind,
+		"sim_steps_total":       totalOps,
+		"sim_time_note":         "no clock in the system; simulated time is counted in history operations",
 		"solo_oracle_processes": solo.Procs,
-		"pool_calls":          len(pool),
-		"scribbles":           scribbles,
-		"reinspections":       reinspects,
-		"device_reads":        devReads,
-		"faults_fired":        fired,
-		"probes":              probesHit,
-		"raw_violations":      len(viols),
-		"outcome_digest":      od.String(),
+		"pool_calls":            len(pool),
+		"scribbles":             scribbles,
+		"reinspections":         reinspects,
+		"device_reads":          devReads,
+		"faults_fired":          fired,
+		"probes":                probesHit,
+		"raw_violations":        len(viols),
+		"outcome_digest":        od.String(),
 	}
 	if err := e.WriteEvidence("C13", "exploration", cov, []string{
 		"solo oracle: the call alone in a fresh process of the same (plain) build defines 'a function of its arguments alone'",
